@@ -1,6 +1,6 @@
 """C05 - literal zones pass through every pipeline byte-for-byte.
 
-Deciding step: exhaustive enumeration of ALL zone contents of <= L lines over 31 line atoms (tabs, NFD,
+Deciding step: exhaustive enumeration of ALL zone contents of <= L lines over 32 line atoms (tabs, NFD,
 backslash escapes, quotes, every operator and alias, ::, envelope markers, separators, shorter backtick
 runs, comments, blank/indented lines, CR, curly annotations) x fence lengths x info tags x placements
 (assignment value at depth 0..3, bare block child first/middle/last/after nested block, two zones),
@@ -40,7 +40,8 @@ ATOMS = [
     "x", "\tx", "é", "a\\nb", '"', '"""', "→ ⊕ ⧺ ⇌ ∧ ∨ §", "-> + ~ vs <-> | & #", "A::B", "===END===", "---", "``", "```",
     "//x", "§1::S", "[", "]", " lead", "trail ", "", "a\rb", "KEY::v", "    indented", "\\", "===X===", "META:", "NAME{q}", "````py",
     "```e\u0301\u2126", "  ``` \u212b",
-    "a\x0cb\u2028c\x85d\x0be\x1cf\u2029g",      # every non-LF line boundary str.splitlines() knows      # shorter backtick run followed by NFC-unstable text (fence-shaped content line)
+    "a\x0cb\u2028c\x85d\x0be\x1cf\u2029g",      # every non-LF line boundary str.splitlines() knows
+    "\x1b[31mred\x1b[0m \x07",                   # terminal escape sequences and a control character (data, not styling)      # shorter backtick run followed by NFC-unstable text (fence-shaped content line)
 ]
 TAGS = [None, "py", "a b", "Py"]
 PLACEMENTS = ["top", "block1", "block2", "section", "section_nested", "bare_first", "bare_middle", "bare_after_nested", "two_values", "two_bare",
@@ -382,6 +383,18 @@ def check(case) -> Res:
     else:
         raw = open(out, "rb").read().decode("utf-8")
         text_check("cli.normalize", raw)
+    # i CLI commands that PRINT the document (stdout is a pipe here, as in a shell pipeline)
+    for pipe, argv in (("cli.eject.stdout", ["eject", src, "--mode", "canonical", "--format", "octave"]), ("cli.normalize.stdout", ["normalize", src]),
+                       ("cli.validate.stdout", ["validate", src])):
+        q = t["runner"].invoke(t["cli"], argv)
+        steps += 1
+        if q.exit_code != 0 and pipe != "cli.validate.stdout":
+            fail(pipe, "refused", q.output[:200])
+            continue
+        printed = q.output
+        if "===END===" in printed:
+            printed = printed[: printed.rindex("===END===") + len("===END===")] + "\n"
+        text_check(pipe, printed)
     return Res("ok" if not viol else "violations", nontrivial=(tuple(lines), fence_len, tag, placement), violations=viol, transitions=steps)
 
 
